@@ -36,9 +36,11 @@ def parseIntStr (s : String) : P Int :=
 
 def ratOf (n d : Int) : Rat := mkRat n d.toNat
 
-/-- Tagged exact JSON value: null | {"b":_} | {"n":"num","d":"den"} | {"s":_} | {"a":[..]} | {"o":[[k,v]..]} -/
+/-- Tagged exact JSON value: null | {"b":_} | {"n":"num","d":"den"} | {"s":_} | {"a":[..]} | {"o":[[k,v]..]}
+| {"r":<value>} (an unparsed `ldvalue.Raw`, carried by the value its text parses to). -/
 partial def jval (j : Json) : P J := do
   if j.isNull then return .null
+  if let .ok r := j.getObjVal? "r" then return .raw (← jval r)
   if let .ok b := (fldD j "b").getBool? then return .bool b
   if let .ok s := (fldD j "s").getStr? then return .str s
   if let .ok n := (fldD j "n").getStr? then
@@ -59,6 +61,7 @@ partial def jvalOut : J → Json
   | .str s => Json.mkObj [("s", s)]
   | .arr xs => Json.mkObj [("a", Json.arr (xs.map jvalOut).toArray)]
   | .obj kvs => Json.mkObj [("o", Json.arr (kvs.map fun (k, v) => Json.arr #[Json.str k, jvalOut v]).toArray)]
+  | .raw v => Json.mkObj [("r", jvalOut v)]
 
 def ref (j : Json) : P Ref := do
   let e := strD j "e"
